@@ -114,6 +114,13 @@ GROUP_DUP = [
     'rule d{ reactant q duplicates r ( a => b ) reactant r{ C labeled a} increase formal charge (a) decrease formal charge (a)}',
     'rule d{ reactant q duplicates r ( a => b, c => d ) reactant r{ C labeled a C labeled c single bond to a} break bond (a,c) increase number of radical (a) increase number of radical (c)}']
 RULES += GROUP_DUP
+_RS = 'rule rs{ reactant r{ C labeled c1 H labeled h1 single bond to c1} %s }'
+RULES += [_RS % e for e in ('break bond (c1,h1) modify number of radical (c1, 1) increase number of radical (h1)',
+                            'modify number of radical (c1, 1) break bond (c1,h1) increase number of radical (h1)',
+                            'break bond (c1,h1) increase number of radical (h1) modify number of radical (c1, 1)',
+                            'break bond (c1,h1) increase number of radical (h1) modify number of radical (c1, 0)',
+                            'modify number of radical (c1, 0) break bond (c1,h1) increase number of radical (h1)',
+                            'break bond (c1,h1) modify number of radical (c1, 2) increase number of radical (h1)')]
 # several reactants: outside the C16 model (guard) - read by C09 only
 BIMOLECULAR = ['rule two{ reactant r{ C. labeled a} reactant q{ C. labeled b} form bond (a,b) decrease number of radical (a) decrease number of radical (b)}',
           'rule two{ reactant r{ C. labeled a} reactant r{ C. labeled b} form bond (a,b) decrease number of radical (a) decrease number of radical (b)}']
@@ -209,8 +216,12 @@ def rule(rng, balanced=True):
             if bt in ('single', 'double', 'triple'):
                 order = {'single': 1, 'double': 2, 'triple': 3}[bt]
                 decl = '' if bt == 'single' and rng.random() < 0.5 else bt + ' '
+                left = ['increase number of radical (%s)' % labels[i]] * order
+                if rng.random() < 0.3:
+                    # the same electrons written as ONE radical-set edit (its position among the other edits must not matter)
+                    left = ['modify number of radical (%s, %d)' % (labels[i], order)]
                 blocks.append(['break %sbond (%s,%s)' % (decl, labels[i], labels[j])]
-                              + ['increase number of radical (%s)' % labels[i]] * order + ['increase number of radical (%s)' % labels[j]] * order)
+                              + left + ['increase number of radical (%s)' % labels[j]] * order)
                 pairs.remove((i, j))
             else:
                 blocks.append(['break bond (%s,%s)' % (labels[i], labels[j])])
@@ -267,7 +278,7 @@ def rule(rng, balanced=True):
                 edits += ['increase formal charge (%s)' % labels[i], 'decrease formal charge (%s)' % labels[j]]
         else:
             edits.append('break bond (%s,%s)' % (labels[0], 'nolabel'))
-    rng.shuffle(edits) if rng.random() < 0.3 else None
+    rng.shuffle(edits) if rng.random() < (0.7 if any('modify number' in e for e in edits) else 0.3) else None
     text = 'rule r%d{ reactant m{ %s } %s }' % (rng.randint(1, 99), ' '.join(parts), ' '.join(edits))
     return text
 
